@@ -37,9 +37,13 @@ def generate(tier, seed):
                 for h in itertools.product(al_ex, repeat=k):
                     cases.append(build_case(sp, adapter_M(st), [], list(h), dom))
                     dist["exhaustive"] += 1
+            if tier != "quick":
+                for h in itertools.product(al[::3], repeat=3):
+                    cases.append(build_case(sp, adapter_M(st), [], list(h), dom))
+                    dist["exhaustive"] += 1
         dist["exhaustive_len"] = L
         # random long histories over all adapters, auto-save on/off
-        n_rand = 60 if tier == "quick" else 1200
+        n_rand = 60 if tier == "quick" else 6000
         for _ in range(n_rand):
             ak = rnd.choice(["M", "M", "N", "F"])
             ad = {"M": adapter_M(initial_lines(rnd, dom, True)), "N": "N", "F": adapter_F(initial_lines(rnd, dom, False))}[ak]
